@@ -651,7 +651,14 @@ K_ENV, K_BLOCK = 0, 1
 
 
 def _ref_target(bits):
-    return int.from_bytes(bits[:-1], "little") * 256 ** (bits[-1] - 3)
+    """Bitcoin Core's arith_uint256::SetCompact; ValueError where Core reports a negative or overflowing target
+    (the library raises there since de6be4c)"""
+    size, word = bits[-1], int.from_bytes(bits[:-1], "little")
+    mant = word & 0x7FFFFF
+    t = mant >> 8 * (3 - size) if size < 3 else mant << 8 * (size - 3)
+    if (word & 0x800000 and t != 0) or t >= 2 ** 256:
+        raise ValueError("negative or overflowing target")
+    return t
 
 
 def _obj_step(op, st):
@@ -704,7 +711,7 @@ def _obj_step(op, st):
         def num(x):                           # targets of exponents below 3 are floats
             return x if isinstance(x, int) else repr(x)
         want = ERR if lay is ERR else _tryE(lambda: [
-            int.from_bytes(_h256(lay), "little") < _ref_target(f[4]), num(_ref_target(f[4])),
+            int.from_bytes(_h256(lay), "little") <= _ref_target(f[4]), num(_ref_target(f[4])),
             f[0] >> 29 == 1, f[0] >> 4 & 1 == 1, f[0] >> 1 & 1 == 1])
         return _tryE(lambda: [obj.check_pow(), num(obj.target()), obj.bip9(), obj.bip91(), obj.bip141()]), want
     if act == b"rt":                          # serialize, parse back, compare with the current fields
@@ -742,7 +749,11 @@ def _obj_step(op, st):
             last = None
             for h in f:
                 lay = _lay_block(h)
-                if not int.from_bytes(_h256(lay), "little") < _ref_target(h[4]):
+                try:
+                    target = _ref_target(h[4])
+                except ValueError:                    # invalid bits never satisfy proof of work (check_pow: False)
+                    return False
+                if not int.from_bytes(_h256(lay), "little") <= target:
                     return False
                 if last and h[1] != last:
                     return False
